@@ -43,6 +43,8 @@ type e2Ctl struct {
 	lastRel  *verifsched.Thread
 }
 
+func init() { bubbleStartHook = verifsched.NewEpoch }
+
 func newE2(prefix []int, horizon int) *e2Ctl {
 	s := verifsched.New()
 	verifsched.Install(s)
